@@ -3130,8 +3130,22 @@ class FuncParseJson(ValueFunc):
         return self.objAsMap(obj)
 
     def execute(self, args, environment, pos):
+        def no_constant(name):
+            # NaN and Infinity are no JSON, and no numbers of the language
+            raise ValueError(name)
+
+        def finite(text):
+            number = float(text)
+            if math.isinf(number):
+                raise ValueError(text)
+            return number
+
         try:
-            j = json.loads(args.getString("s").value)
+            j = json.loads(
+                args.getString("s").value,
+                parse_constant=no_constant,
+                parse_float=finite,
+            )
             return self.convertObj(j)
         except Exception:
             raise CklRuntimeError(
